@@ -270,8 +270,57 @@ func (g *PG) stmt(depth int) {
 		default:
 			g.trace()
 		}
-	case k < 38:
+	case k < 34:
 		g.trace()
+	case k < 38: // multi-value forms, with blanks in every position
+		g.f("multi-assign")
+		a, b2, c := g.fresh("a"), g.fresh("q"), g.fresh("z")
+		switch r.Intn(9) {
+		case 0:
+			g.w("%s, %s := pair2(%s, %s)\n_ = %s\n_ = %s\n", a, b2, g.intExpr(1), g.intExpr(1), a, b2)
+			g.declare(a, "int")
+			g.declare(b2, "int")
+		case 1:
+			g.w("%s, _ := pair2(%s, %s)\n_ = %s\n", a, g.intExpr(1), g.intExpr(1), a)
+			g.declare(a, "int")
+		case 2:
+			g.w("_, %s := pair2(%s, %s)\n_ = %s\n", b2, g.intExpr(1), g.intExpr(1), b2)
+			g.declare(b2, "int")
+		case 3:
+			g.w("%s, _, %s := tri(%s)\n_ = %s\n_ = %s\n", a, c, g.intExpr(1), a, c)
+			g.declare(a, "int")
+			g.declare(c, "int")
+		case 4:
+			g.w("_, %s, _ := tri(%s)\n_ = %s\n", b2, g.intExpr(1), b2)
+			g.declare(b2, "int")
+		case 5, 6, 7:
+			if m := g.vars("map[string]int"); len(m) > 0 {
+				g.f("comma-ok")
+				key := Pick(r, []string{"a", "b", "zz"})
+				switch r.Intn(3) {
+				case 0:
+					ok := g.fresh("ok")
+					g.w("%s, %s := %s[%q]\n_ = %s\n_ = %s\n", a, ok, Pick(r, m), key, a, ok)
+					g.declare(a, "int")
+					g.declare(ok, "bool")
+				case 1:
+					g.w("%s, _ := %s[%q]\n_ = %s\n", a, Pick(r, m), key, a)
+					g.declare(a, "int")
+				default:
+					ok := g.fresh("ok")
+					g.w("_, %s := %s[%q]\n_ = %s\n", ok, Pick(r, m), key, ok)
+					g.declare(ok, "bool")
+				}
+			} else {
+				g.trace()
+			}
+		default:
+			if iv := g.vars("int"); len(iv) >= 2 {
+				g.w("%s, %s = %s, %s\n", iv[0], iv[1], iv[1], iv[0])
+			} else {
+				g.w("pair2(1, 2)\n")
+			}
+		}
 	case k < 45 && g.inLoop > 0: // break / continue, guarded so that the loop still does something
 		g.f("break-continue")
 		g.w("if %s {\n%s\n}\n", g.boolExpr(1), Pick(r, []string{"break", "continue"}))
@@ -406,6 +455,7 @@ func GenProgram(r *RNG, depth int) (GoProg, map[string]bool) {
 	g := &PG{r: r, budget: 45, feat: map[string]bool{}}
 	g.w("var fuel = 80\n\ntype T struct {\n\tA int\n\tB int\n}\n\nfunc (t *T) Sum(k int) int {\n\treturn t.A + t.B*k\n}\n\nfunc (t *T) Inc() {\n\tt.A++\n\tt.B += 2\n}\n\n")
 	g.w("func add(a int, b int) int {\n\treturn a + b\n}\n\nfunc isOdd(a int) bool {\n\treturn a%%2 != 0\n}\n\n")
+	g.w("func pair2(a int, b int) (int, int) {\n\treturn b, a + 1\n}\n\nfunc tri(a int) (int, int, int) {\n\treturn a, a + 1, a + 2\n}\n\n")
 	nh := r.Intn(3)
 	for h := 0; h < nh; h++ {
 		g.w("func h%d(p int) int {\n", h)
